@@ -31,4 +31,6 @@ def replay(ctx, path):
     obj = json.load(open(path))["replay"]
     if obj.get("kind") == "slots":
         return slots_check.replay_slots(ctx, obj)
+    if obj.get("kind") == "crash-run":
+        return c03.replay(ctx, path)
     return tower_common.replay(ctx, path)
